@@ -33,6 +33,20 @@ def boundary_case(rng, cid, ps, delta, with_delete):
     return Case(cid, "tree", [ps, "persistent"], ops, tags=["boundary"])
 
 
+def grown_case(rng, cid, ps):
+    """the file has grown once before the close; after the reopen the tree keeps growing past the end of the reopened
+    file (the buffer's idea of its capacity after NewTreePersistent on an existing, larger file)"""
+    fit = (MIN_SIZE - 8) // ps - 1
+    v = rng.randrange(2, 50)
+    p1 = fit * rng.choice([12, 13, 15]) // 10
+    p2 = fit * rng.choice([21, 22, 24]) // 10
+    big = 1 << 40
+    ops = [["fill", 1, 1, v, p1], ["stats"], ["datalen"], ["reopen"], ["stats"], ["datalen"], ["get", 1], ["get", 2],
+           ["fill", big, 1, v, p2], ["stats"], ["datalen"], ["get", big], ["get", 1],
+           ["reopen"], ["stats"], ["datalen"], ["get", big + 5], ["get", 3]]
+    return Case(cid, "tree", [ps, "persistent"], ops, tags=["boundary", "grown"])
+
+
 class C16(Prop):
     pid = "C16"
     pkg = "z"
@@ -58,6 +72,8 @@ class C16(Prop):
             ps = 4096 if j % 2 == 0 else rng.choice([1024, 256] if not thorough else [80, 96, 128, 256, 1024])
             delta = [0, -1, 1, 2, -2][j % 5] if j >= 2 else 0
             cases.append(boundary_case(rng, "b%d" % j, ps, delta, with_delete=(j % 3 == 2)))
+        for j in range(3 if thorough else 1):
+            cases.append(grown_case(rng, "g%d" % j, 4096 if j == 0 else rng.choice([4096, 1024])))
         for j in range(40 if thorough else 8):
             cases.append(realloc_case(rng, "ra%d" % j, rng.choice([80, 80, 96, 128, 256, 1024]), "persistent", reopen=True))
         for j in range(n):
